@@ -33,7 +33,7 @@ struct RuleDef {
   int discOn = -1;                 // -1 always, else conditional on start request #discOn
   int discPar = 2;
   int validity = 0;                // 0 always valid, 1 never valid, 2 output cell
-  int vk = 0;                      // 0 full (injective), 1 collapse (parity only), 2 force-change
+  int vk = 0;                      // 0 full (injective), 1 collapse (parity only), 2 force-change, 3 empty value + force-change
   uint64_t sig = 0;
 };
 
@@ -146,6 +146,7 @@ inline bool parseWorld(const std::string& spec, World& w, std::string* err = nul
       else if (t == "#cell") d.validity = 2;
       else if (t == "%collapse") d.vk = 1;
       else if (t == "%force") d.vk = 2;
+      else if (t == "%void") d.vk = 3;
       else if (t.compare(0, 4, "sig=") == 0) d.sig = strtoull(t.c_str() + 4, nullptr, 10);
       else {
         Req r;
@@ -197,6 +198,7 @@ inline std::string computeValue(const RuleDef& d, char k, const std::vector<std:
   }
   full += ")";
   if (d.vk == 1) return std::string(1, k) + "~" + std::string(1, char('0' + parity(full)));
+  if (d.vk == 3) return "";  // a stamp: the value carries nothing, every run counts as a change
   return full;
 }
 
